@@ -732,7 +732,7 @@ def run_thread_case(case, scratch):
                 node = node.latest()
             else:
                 node = build(t, [node], {}, scratch)
-        node.sink(sinkf)
+        state["sink"] = node.sink(sinkf)
         return src, node
 
     out = {}
@@ -772,12 +772,18 @@ def run_thread_case(case, scratch):
             out["threads"] = len(bgt)
             out["bg"] = len(sc._io_loops)
             out["bg_ident"] = bgt[0].ident if bgt else None
-            if case["head"] == "Stream":
-                for i in range(want):
-                    src.emit(i)
-            else:
-                src.start()
-            out["completed"] = done.wait(20)
+            try:
+                if case.get("start_via") == "sink":
+                    # the pipeline is started through its last node, from this (non-loop) thread: start() walks upstream
+                    state["sink"].start()
+                if case["head"] == "Stream":
+                    for i in range(want):
+                        src.emit(i)
+                elif case.get("start_via") != "sink":
+                    src.start()
+            except Exception as e:      # noqa: BLE001
+                out["raised"] = "%s: %s" % (type(e).__name__, e)
+            out["completed"] = (not out.get("raised")) and done.wait(20)
             if case["head"] != "Stream":
                 src.stop()
             f = getattr(src, "file", None)
@@ -850,6 +856,8 @@ def check_thread_case(ctx, case, scratch):
             bad = "undeclared source ended on loop=%s asynchronous=%s" % (out.get("loop"), out.get("asyn"))
         elif out["threads"] != 1 or out["bg"] != 1:
             bad = "expected exactly one background loop thread (threads=%d, len(_io_loops)=%d)" % (out["threads"], out["bg"])
+        elif out.get("raised"):
+            bad = "starting / feeding the pipeline from the caller's thread raised " + out["raised"]
         elif not out.get("completed"):
             bad = "callbacks did not arrive"
         elif out["idents"] != [out["bg_ident"]]:
@@ -873,6 +881,10 @@ def thread_cases(thorough):
             if h == "Stream" and "buffer" not in m:
                 continue        # a plain undeclared pipeline has no loop at all
             cases.append({"kind": "threads", "mode": "sync", "head": h, "mid": m, "n": 3})
+    # a blocking pipeline started through its sink from the caller's thread: every node's own tasks still live on the background loop
+    for h in ["Stream", "from_iterable"] + (["from_textfile", "from_q"] if thorough else []):
+        for m in [["map_async"], ["buffer"], ["map_async", "buffer"]] + ([["map", "map_async"], ["rate_limit"]] if thorough else []):
+            cases.append({"kind": "threads", "mode": "sync", "head": h, "mid": m, "n": 3, "start_via": "sink"})
     return cases
 
 
